@@ -56,6 +56,7 @@ pub fn observe(c: &Case) -> Result<Obs, String> {
   catch(|| {
     let mut rng = Rng::new(1);
     let mut w = World::new(Flavor::Local, 0);
+    w.timer_ties_fifo = true;
     let log = w.log.clone();
     let sched = w.l.sched.clone();
     let sched_t = w.t.sched.clone();
